@@ -83,6 +83,10 @@ func FlowProgram(r R, withDisruptive bool) (*sl.Program, []string) {
 				rule.StatusLast = Chance(r, 0.5)
 			}
 		}
+		if rule.Disruptive != "" && Chance(r, 0.15) {
+			// an earlier disruptive action in the same list is replaced by the last one, argument and all
+			rule.Overridden = Pick(r, []string{"pass", "deny", "allow:phase", "allow:request", "allow", "block"})
+		}
 		p.Items = append(p.Items, sl.Item{Rule: rule})
 		// markers are placed where no skip window can reach them: only directly after a rule that has no skip,
 		// and never within 4 rules after a rule of the same... simpler: placed, and the model flags the rare overlap as ambiguous.
